@@ -623,6 +623,30 @@ def explore_replacement(tier, seed, budget):
     return stats, hists, expect, keys
 
 
+def simplify_stream(R, pid, tier, seed):
+    """C09, solver level: Solver.simplify() (explicit, or implied by min / max / eval) keeps the model set, also when some
+    constraints carry a SimplificationAvoidanceAnnotation and the rest simplifies to a conjunction"""
+    classes = PLAIN + COMPOSITE + [["SolverReplacement", {}], ["SolverHybrid", {}]]
+    jobs = jobs_generic(classes, "c09s", 25, 250, n=8, saa=True)(tier, seed) + \
+        jobs_generic(COMPOSITE + [["Solver", {}]], "c09s3", 25, 250, n=4, W=2, alpha="xyz", saa=True)(tier, seed)
+    bad, stats = C.pipeline("w_solver", jobs, "TraceSolver.tla")
+    st = C.merge_stats(stats)
+    findings = C.load_findings(pid) + C.load_findings("C13")
+    for _, tr, clause, extra in bad:
+        if clause not in QUERY_CLAUSES:
+            continue
+        k = int(extra)
+        if not any(e["call"] == "simplify" or e["call"] in ("min", "max", "eval", "batch_eval") for e in tr["ev"][:k]):
+            continue
+        fid = match_finding(findings, tr, k, clause)
+        if fid:
+            R.add_known(fid["id"], fid["what"])
+            continue
+        R.add_violation({"property": pid, "clause": "solver-simplify-" + clause, "tid": tr["tid"], "step": k,
+                         "event": describe(tr["ev"][k - 1]), "vars": tr["vars"], "history": [describe(e) for e in tr["ev"][:k]]})
+    return st.get("calls", 0)
+
+
 def truth_stream(R, pid, tier, seed):
     """C10, solver level: is_true / is_false relative to constraints and extra constraints, on every frontend class incl.
     the VSA-backed ones, after adds / branch / merge / combine / split; only the over-claim clauses are C10's"""
